@@ -312,6 +312,20 @@ func c04test(vs []gen.Variant) (kind, what, detail, printed string) {
 	if p := fw.Try(func() { bad = c04check(m) }); p != "" {
 		return "walker-panics", "identity walk panics on the parsed module", p, ""
 	}
+	if len(bad) == 0 {
+		// the same text parsed once more in this process: every reference must resolve inside
+		// the SECOND module too (nothing may be remembered from the earlier parse).
+		m2, errs2, pan2 := parseTry(x)
+		if errs2 != "" || pan2 != "" {
+			return "second-parse-differs", "the same text is not accepted when parsed a second time", errs2 + pan2, ""
+		}
+		if p := fw.Try(func() { bad = c04check(m2) }); p != "" {
+			return "walker-panics", "identity walk panics on the module parsed second", p, ""
+		}
+		for i := range bad {
+			bad[i] = "[second parse of the same text] " + bad[i]
+		}
+	}
 	if len(bad) > 0 {
 		k := "identity"
 		switch {
@@ -341,7 +355,7 @@ func runC04(c *fw.Check) {
 	}
 	entries := gen.Catalogue()
 	all, batches := genBatches(entries, bound, 40)
-	c.Rule = fmt.Sprintf("all variants with <=%d deviations of the %d-production catalogue (incl. 14 reference topologies: mutually referring globals, recursive calls, phi/branch cycles, use before definition, blockaddress into other functions and of equally named labels, recursive and mutually recursive types, metadata cycles and forward references, aliases of aliases, shared comdats and attribute groups, use-list orders) are parsed in batches (so equally named locals of many functions coexist) and the object graph is walked by reflection: every global-like operand must be pointer-identical to an element of the module's lists, every block/param/instruction operand to an element of the ENCLOSING function, blockaddress blocks to blocks of the named function, every named type to the TypeDefs object, comdats/attribute groups/numbered metadata likewise; Parent links agree with containment; no block without terminator. distinct = variants.", bound, len(entries))
+	c.Rule = fmt.Sprintf("all variants with <=%d deviations of the %d-production catalogue (incl. 14 reference topologies: mutually referring globals, recursive calls, phi/branch cycles, use before definition, blockaddress into other functions and of equally named labels, recursive and mutually recursive types, metadata cycles and forward references, aliases of aliases, shared comdats and attribute groups, use-list orders) are parsed in batches (so equally named locals of many functions coexist) and the object graph is walked by reflection: every global-like operand must be pointer-identical to an element of the module's lists, every block/param/instruction operand to an element of the ENCLOSING function, blockaddress blocks to blocks of the named function, every named type to the TypeDefs object, comdats/attribute groups/numbered metadata likewise; Parent links agree with containment; no block without terminator. Each text is parsed a second time in the same process and the second module must satisfy the same constraints (a reference resolving into the module of an EARLIER parse is caught); a failure that needs several variants in one module is narrowed to a smallest failing combination. distinct = variants.", bound, len(entries))
 	c.Extra["variants"] = len(all)
 	fs := &failSet{}
 	fw.ParallelFor(len(batches), func(i int) {
@@ -363,14 +377,11 @@ func runC04(c *fw.Check) {
 func replayC04(c *fw.Check, path string) {
 	var cs genCase
 	loadReplay(path, &cs)
-	for i, e := range gen.Catalogue() {
-		if e.Name == cs.Entry {
-			v := gen.Build(e, "replay_", 10000000*(i+1), cs.Choices)
-			fmt.Printf("replay %s %v:\n%s\n", v.Entry, v.Devs, gen.Module([]gen.Variant{v}))
-			fs := &failSet{}
-			bisect(fs, []gen.Variant{v}, c04test)
-			fs.report(c)
-		}
+	if vs := variantsOfCase(cs); len(vs) > 0 {
+		fmt.Printf("replay %s:\n%s\n", cs.Entry, gen.Module(vs))
+		fs := &failSet{}
+		bisect(fs, vs, c04test)
+		fs.report(c)
 	}
 	c.Case("a", "a")
 	c.Case("b", "b")
